@@ -122,7 +122,8 @@ struct Ctx {
 	explicit Ctx(Src& s) : src(s) {}
 	void label(const char* l) { labels.emplace_back(l); }
 	void label(const std::string& l) { labels.push_back(l); }
-	void describe(std::string d) { desc = std::move(d); }
+	void describe(std::string d) { desc = std::move(d); if (onDescribe()) onDescribe()(desc); }
+	static std::function<void(const std::string&)>& onDescribe() { static std::function<void(const std::string&)> f; return f; }
 	[[noreturn]] void fail(std::string kind, std::string detail = {}) { throw Failure{ std::move(kind), std::move(detail) }; }
 	[[noreturn]] void discard(std::string why) { throw Discard{ std::move(why) }; }
 	/// A listed known finding is active (recorded, not fixed): generators avoid its trigger class.
@@ -211,11 +212,11 @@ inline bool get_field(const std::string& in, size_t& pos, std::string& f) { if (
 inline int& g_term_fd() { static int fd = -1; return fd; }
 inline void isolated_terminate_handler() { const char m[] = "TERMINATE"; if (g_term_fd() >= 0) (void)!write(g_term_fd(), m, sizeof m - 1); _exit(70); }
 
-struct SharedTrace { uint64_t n; uint64_t v[1 << 18]; };
+struct SharedTrace { uint64_t n; char desc[2048]; uint64_t v[1 << 18]; };
 inline SharedTrace* shared_trace() { static SharedTrace* t = [] { void* m = mmap(nullptr, sizeof(SharedTrace), PROT_READ | PROT_WRITE, MAP_SHARED | MAP_ANONYMOUS, -1, 0); return m == MAP_FAILED ? nullptr : static_cast<SharedTrace*>(m); }(); return t; }
 
 inline CaseResult run_case_isolated(const PropInfo& p, Src& src, unsigned cpuSeconds) {
-	SharedTrace* tr = shared_trace(); if (tr) tr->n = 0;
+	SharedTrace* tr = shared_trace(); if (tr) { tr->n = 0; tr->desc[0] = 0; }
 	int fds[2]; if (pipe(fds) != 0) { CaseResult r; r.k = CaseResult::Failed; r.kind = "harness-pipe"; return r; }
 	fflush(stdout); fflush(stderr);
 	pid_t pid = fork();
@@ -224,6 +225,7 @@ inline CaseResult run_case_isolated(const PropInfo& p, Src& src, unsigned cpuSec
 		struct rlimit rl { cpuSeconds, cpuSeconds + 1 }; setrlimit(RLIMIT_CPU, &rl);
 		int tfd = dup(fds[1]); g_term_fd() = tfd; std::set_terminate(isolated_terminate_handler);
 		if (tr) Src::traceDraw() = [](uint64_t v) { SharedTrace* t = shared_trace(); if (t->n < (1 << 18)) t->v[t->n++] = v; };
+		if (tr) Ctx::onDescribe() = [](const std::string& d) { SharedTrace* t = shared_trace(); size_t n = std::min(d.size(), sizeof(t->desc) - 1); memcpy(t->desc, d.data(), n); t->desc[n] = 0; };
 		CaseResult r = run_case(p, src);
 		std::string o; o.push_back(static_cast<char>('0' + r.k)); put_field(o, r.kind); put_field(o, r.detail); put_field(o, r.desc); put_field(o, r.why);
 		o.push_back(r.nontrivial ? '1' : '0'); std::string ls; for (auto& l : r.labels) { ls += l; ls.push_back('\n'); } put_field(o, ls);
@@ -235,7 +237,7 @@ inline CaseResult run_case_isolated(const PropInfo& p, Src& src, unsigned cpuSec
 	close(fds[1]); std::string in; char buf[4096]; ssize_t k; while ((k = read(fds[0], buf, sizeof buf)) > 0) in.append(buf, static_cast<size_t>(k)); close(fds[0]);
 	int st = 0; waitpid(pid, &st, 0);
 	CaseResult r; r.seq = src.recorded();
-	if (tr) r.seq.assign(tr->v, tr->v + tr->n);
+	if (tr) { r.seq.assign(tr->v, tr->v + tr->n); r.desc = tr->desc; }
 	auto parse = [&]() {
 		if (in.empty()) return false; size_t pos = 1; std::string nt, ls, sq;
 		r.k = static_cast<CaseResult::K>(in[0] - '0');
@@ -246,7 +248,7 @@ inline CaseResult run_case_isolated(const PropInfo& p, Src& src, unsigned cpuSec
 		r.seq.resize(sq.size() / 8); memcpy(r.seq.data(), sq.data(), r.seq.size() * 8); return true;
 	};
 	bool parsed = in.rfind("TERMINATE", 0) != 0 && parse();
-	if (WIFSIGNALED(st)) { r.k = CaseResult::Failed; int sg = WTERMSIG(st); r.kind = (sg == SIGXCPU || sg == SIGKILL) ? "died:cpu-budget" : cat("died:signal-", sg); r.detail = parsed ? r.desc : ""; return r; }
+	if (WIFSIGNALED(st)) { r.k = CaseResult::Failed; int sg = WTERMSIG(st); r.kind = (sg == SIGXCPU || sg == SIGKILL) ? "died:cpu-budget" : cat("died:signal-", sg); return r; }
 	int ec = WEXITSTATUS(st);
 	if (ec == 70) { r.k = CaseResult::Failed; r.kind = "died:std-terminate"; return r; }
 	if (ec == 97) { r.k = CaseResult::Failed; r.kind = "died:cpu-budget"; return r; }
@@ -263,7 +265,7 @@ inline CaseResult run_any(const PropInfo& p, Src& s) { return g_isolate() ? run_
 // Shrinking: delta debugging over the recorded draws, keeping the same failure kind
 // ---------------------------------------------------------------------------------------------
 inline CaseResult shrink(const PropInfo& p, CaseResult best, unsigned budget = 3000) {
-	if (g_isolate()) budget = std::min(budget, 600u);
+	if (g_isolate()) budget = std::min(budget, 200u);
 	auto attempt = [&](const std::vector<uint64_t>& cand, CaseResult& out) {
 		if (budget == 0) return false; --budget;
 		Src s(cand); CaseResult r = run_any(p, s);
